@@ -29,15 +29,34 @@ import (
 //
 //	UnquoteSingleQuoted([]byte("'foo'")) == "foo"
 func UnquoteSingleQuoted(in []byte) (string, error) {
-	out := string(swapQuotes(unescapeQuotes(in, '"')))
-	str, err := strconv.Unquote(out)
-	if err != nil {
-		return str, err
+	if len(in) < 2 || in[0] != '\'' || in[len(in)-1] != '\'' {
+		return "", strconv.ErrSyntax
 	}
 
-	// s/'/"/g, s/"/'/g
-	out = string(swapQuotes([]byte(str)))
-	return out, nil
+	// Rewrite the literal as a double quoted one: \' needs no escape there
+	// and a bare " does. Every other escape sequence is left for
+	// strconv.Unquote; in particular the quote characters it produces
+	// (\x22, \047, ...) are ordinary characters.
+	body := in[1 : len(in)-1]
+	out := make([]byte, 0, len(in)+2)
+	out = append(out, '"')
+	for i := 0; i < len(body); i++ {
+		switch {
+		case body[i] == '\\' && i+1 < len(body):
+			if body[i+1] == '\'' {
+				out = append(out, '\'')
+			} else {
+				out = append(out, body[i], body[i+1])
+			}
+			i++
+		case body[i] == '"':
+			out = append(out, '\\', '"')
+		default:
+			out = append(out, body[i])
+		}
+	}
+	out = append(out, '"')
+	return strconv.Unquote(string(out))
 }
 
 // UnquoteDoubleQuoted unquotes a slice of bytes representing a double quoted
@@ -67,22 +86,6 @@ func unescapeQuotes(in []byte, quote byte) []byte {
 			continue
 		}
 		out = append(out, in[i])
-	}
-	return out
-}
-
-// swapQuotes replaces all single quotes with double quotes and all double
-// quotes with single quotes.
-func swapQuotes(in []byte) []byte {
-	// s/'/"/g, s/"/'/g
-	out := make([]byte, len(in))
-	for i, c := range in {
-		if c == '"' {
-			c = '\''
-		} else if c == '\'' {
-			c = '"'
-		}
-		out[i] = c
 	}
 	return out
 }
